@@ -277,7 +277,7 @@ def compare(ctx, stream, case, impl, mout):
 
 # ------------------------------------------------------------------ frame monitor (C11) and sequence monitor (C17)
 
-def check_frame(f, session_known, cids):
+def check_frame(f, session_known, cids, mr_shape=True):
     """independent strict check of one emitted frame; returns reason or None"""
     if len(f) < 24:
         return "shorter than a header"
@@ -320,7 +320,7 @@ def check_frame(f, session_known, cids):
         if dl < 2:
             return "connected data without sequence count"
         mr = b[p + 4 + 2:]
-        if len(mr) < 2 or 2 + 2 * mr[1] > len(mr):
+        if mr_shape and (len(mr) < 2 or 2 + 2 * mr[1] > len(mr)):
             return "connected data: request path of %d words does not fit the %d bytes after the sequence count" % (mr[1] if len(mr) > 1 else -1, len(mr))
     return None
 
@@ -424,6 +424,9 @@ def gen_base(rng, policy=None, generic=None, **kw):
             generic = (0, (), bytes(rng.getrandbits(8) for _ in range(rng.choice([0, 1, 4, 6, 20]))))
         else:
             generic = (rng.choice([1, 4, 5, 6, 8, 0x0E, 0x14, 0x1E, 0xFF]), rng.choice([(), (), (0x0100,), (1, 2)]), b"")
+    if "ids" not in kw and rng.random() < 0.3:
+        # boundary values of the handles the target grants: 0 is a legal connection id, the high bit a legal handle
+        kw["ids"] = (rng.choice([1, 0x1001, 0x7FFFFFFF, 0x80000000, 0xFFFFFFFF]), rng.choice([0, 0, 1, 0x80000000, 0xFFFFFFFF, 0x00C0FFEE]))
     return fakesock.base_scenario(policy=policy, generic=generic, **kw), policy, generic
 
 
